@@ -120,6 +120,8 @@ def irset(r, toggle: bool = None, special: bool = None, density: float = None, l
         for b in bases:
             if r.random() < 0.35:
                 keys.append(b)  # entry without fan level
+            if r.random() < 0.12:
+                keys.append(b + "_d1")  # a swing entry without a fan level: stored, but never what "drop swing, then fan" arrives at
             for fan in ("_f0", "_f1", "_f2", "_f3"):
                 if r.random() < density:
                     keys.append(b + fan)
@@ -156,7 +158,7 @@ def irset(r, toggle: bool = None, special: bool = None, density: float = None, l
         keys += ["FUN_d0", "FUN_d1"]
     # key order in the file: shuffled, as written (mode by mode, temperatures ascending), or with an extreme temperature
     # stored exactly once and first/last among the temperature keys (range scans depend on order and multiplicity)
-    style = r.choice(["shuffled", "shuffled", "shuffled", "as_written", "min_once_first", "max_once_first", "min_once_last", "single_temp",
+    style = r.choice(["shuffled", "shuffled", "shuffled", "as_written", "descending", "min_once_first", "max_once_first", "min_once_last", "single_temp",
                       "non_mode_first", "prefixed_last"])
     if style == "non_mode_first":
         # a sorted listing starts with FUN_d0 / off / on_...: the first entry is not a mode key
@@ -164,9 +166,11 @@ def irset(r, toggle: bool = None, special: bool = None, density: float = None, l
     elif style == "prefixed_last":
         # all power-changing codes listed after all plain ones (grouped by kind, not next to their plain twins)
         keys.sort(key=lambda k: (1 if k.startswith("on_") else 0))
+    if style == "descending":
+        keys.reverse()       # as written, but from the warmest to the coldest
     if style == "shuffled":
         r.shuffle(keys)
-    elif style not in ("as_written", "non_mode_first", "prefixed_last"):
+    elif style not in ("as_written", "descending", "non_mode_first", "prefixed_last"):
         tkeys = [k for k in keys if k[:2] in ("ar", "ah") and k[2:4].isdigit()]
         if tkeys:
             temps = sorted({int(k[2:4]) for k in tkeys})
@@ -196,6 +200,9 @@ def irset(r, toggle: bool = None, special: bool = None, density: float = None, l
             total = r.randrange(240, 300)   # around the one-byte boundary
         elif x < 0.38:
             total = r.randrange(300, 2001)
+        elif x < 0.44:
+            # the whole signed frame (91 + text) lands on or next to a block size a writer might use
+            total = r.choice([255, 256, 257, 511, 512, 513, 768, 1023, 1024, 1025, 1536, 2047, 2048, 2049]) - 91
         else:
             total = r.randrange(12, 240)
         if k == "off" and r.random() < 0.3:
@@ -211,6 +218,16 @@ def irset(r, toggle: bool = None, special: bool = None, density: float = None, l
         elif long_codes and x2 < 0.07 and not any(w["Para"] == "" and w["HexCode"] == "" for w in waves):
             para, hexcode = "", ""                                   # the shortest possible text: the separator alone (1 byte)
         waves.append({"Key": k, "Para": para, "HexCode": hexcode})
+    if long_codes and len(waves) > 4 and r.random() < 0.3:
+        # two entries whose two parts join to the same string but are split in different places ("1A" + "3F00" / "1A3F" + "00")
+        for _ in range(r.randrange(1, 4)):
+            a, b = r.sample(range(len(waves)), 2)
+            pa, ha = waves[a]["Para"], waves[a]["HexCode"]
+            if len(ha) >= 4 and pa and waves[b]["Key"] != "off":
+                cut = r.randrange(1, min(len(ha) - 1, 6))
+                cand = pa + ha[:cut]
+                if all(w["Para"] != cand for w in waves):
+                    waves[b]["Para"], waves[b]["HexCode"] = cand, ha[cut:]
     return {"IRSetID": rid, "OnOffType": 1 if toggle else 0, "IRWaveList": waves}
 
 
